@@ -18,6 +18,7 @@ var round2Docs = map[string]map[string]string{
 	"C24": {"C24.R5": "pairing: popped stream-expiry item ⇔ index entry", "C24.R6": "pairing: state entry delete ⇒ deadline record delete"},
 	"C15": {"C15.R6": "error discipline: a child's validation error is returned before the next child"},
 	"C14": {"C14.R6": "K2: the medium's delta base does not depend on the publication's delta flag"},
+	"C07": {"C07.R5": "K1: the subscribe wait gate is released only after presence was added and join published"},
 	"C04": {"C04.R8": "K2: an asynchronous callback changes a hub routing entry only for the subscription generation it was started for"},
 	"C09": {"C09.R5": "K4 who-may-write: the outstanding-ping marker (sign of Client.lastPing)"},
 	"C01": {"C01.R7": "K1: a publication that reveals a gap never advances the stored position"},
@@ -75,6 +76,8 @@ func hookRound2(c *Ctx, prop string) {
 		runBaseFollowsEveryPublication(c)
 	case "C16":
 		runPreparedDataComplete(c)
+	case "C07":
+		runGateAfterSetup(c)
 	case "C04":
 		runAsyncRoutingWriteGenMatched(c)
 	case "C09":
@@ -108,6 +111,144 @@ func hookRound2(c *Ctx, prop string) {
 	case "C02":
 		runPositionPair(c)
 	}
+}
+
+// derivesFromPred: some value on the way to v (through loads, element addresses, slices, phis, appends,
+// local cells and array literals) satisfies pred.
+func derivesFromPred(v ssa.Value, pred func(ssa.Value) bool, depth int, seen map[ssa.Value]bool) bool {
+	if v == nil || seen[v] || depth > 14 {
+		return false
+	}
+	seen[v] = true
+	if pred(v) {
+		return true
+	}
+	rec := func(x ssa.Value) bool { return derivesFromPred(x, pred, depth+1, seen) }
+	switch x := v.(type) {
+	case *ssa.UnOp:
+		if rec(x.X) {
+			return true
+		}
+	case *ssa.IndexAddr:
+		return rec(x.X)
+	case *ssa.Index:
+		return rec(x.X)
+	case *ssa.Slice:
+		return rec(x.X)
+	case *ssa.Phi:
+		for _, e := range x.Edges {
+			if rec(e) {
+				return true
+			}
+		}
+	case *ssa.Extract:
+		return rec(x.Tuple)
+	case *ssa.Next:
+		return rec(x.Iter)
+	case *ssa.Range:
+		return rec(x.X)
+	case *ssa.Call:
+		if b, ok := x.Call.Value.(*ssa.Builtin); ok && b.Name() == "append" {
+			for _, a := range x.Call.Args {
+				if rec(a) {
+					return true
+				}
+			}
+		}
+	case *ssa.Alloc:
+		for _, r := range *x.Referrers() {
+			switch u := r.(type) {
+			case *ssa.Store:
+				if u.Addr == x && rec(u.Val) {
+					return true
+				}
+			case *ssa.IndexAddr:
+				for _, rr := range *u.Referrers() {
+					if st, ok := rr.(*ssa.Store); ok && st.Addr == ssa.Value(u) && rec(st.Val) {
+						return true
+					}
+				}
+			}
+		}
+	}
+	return false
+}
+
+// runGateAfterSetup (C07.R5, also C06): an unsubscribe that arrives while a subscribe is in flight parks
+// on the reservation's wait gate (subscribingCh) and tears the subscription down as soon as the gate is
+// closed. Everything the subscribe path still does after closing the gate can be overtaken: if presence
+// is added or join published after it, the woken unsubscribe removes presence that is not there yet and
+// publishes leave first — a stale presence entry and a join without a later leave remain. So: after a
+// non-deferred close of a wait gate no presence add / join publish is reachable in that function, and a
+// function that closes the gate at its return (defer) has no caller that does one after the call.
+func runGateAfterSetup(c *Ctx) {
+	w := c.W
+	setup := w.calleeIs("Node.addPresence", "Client.setupMapPresenceAndJoin", "Client.publishJoinAndPresence", "Node.publishJoin", "Client.addMapClientPresence", "Client.addMapUserPresence")
+	setupI := w.wrapMay(setup, 2)
+	isGate := func(v ssa.Value) bool {
+		ch, ok := v.Type().Underlying().(*types.Chan)
+		if !ok {
+			return false
+		}
+		if st, ok := ch.Elem().Underlying().(*types.Struct); !ok || st.NumFields() != 0 {
+			return false
+		}
+		d := D(v)
+		if strings.Contains(d, "subscribingCh") || strings.Contains(d, "commitSubscription(") || strings.Contains(d, "gateCh") {
+			return true
+		}
+		// an element of a slice collected from reservations' subscribingCh fields
+		return derivesFromPred(v, func(x ssa.Value) bool {
+			if fa, ok := x.(*ssa.FieldAddr); ok {
+				if st, ok := deref(fa.X.Type()).Underlying().(*types.Struct); ok && st.Field(fa.Field).Name() == "subscribingCh" {
+					return true
+				}
+			}
+			if fl, ok := x.(*ssa.Field); ok {
+				if st, ok := fl.X.Type().Underlying().(*types.Struct); ok && st.Field(fl.Field).Name() == "subscribingCh" {
+					return true
+				}
+			}
+			return false
+		}, 0, map[ssa.Value]bool{})
+	}
+	n := 0
+	for _, f := range w.AllFuncs {
+		if !w.inModule(f) || strings.HasSuffix(w.Pos(f.Pos()), "_test.go") {
+			continue
+		}
+		EachInstr(f, func(in ssa.Instruction) {
+			ci := asCall(in)
+			if ci == nil {
+				return
+			}
+			b, ok := ci.Common().Value.(*ssa.Builtin)
+			if !ok || b.Name() != "close" || len(ci.Common().Args) != 1 || !isGate(ci.Common().Args[0]) {
+				return
+			}
+			n++
+			if _, deferred := in.(*ssa.Defer); deferred {
+				// runs at return: no caller may go on to add presence / publish join
+				root := f
+				var bad ssa.Instruction
+				for _, cs := range w.Callers(root) {
+					if strings.HasSuffix(w.InstrPos(cs), "_test.go") {
+						continue
+					}
+					if x := (PathQ{Goal: setupI}).From(cs); x != nil {
+						bad = x
+					}
+				}
+				c.Check("C07.R5", in, "wait gate released at return: no caller adds presence or publishes join afterwards", bad == nil,
+					"the gate opens when this function returns, its caller still publishes join / adds presence after that"+instrAt(w, bad)+": a parked unsubscribe overtakes them (leave before join, stale presence)")
+				return
+			}
+			bad := PathQ{Goal: setupI}.From(in)
+			c.Check("C07.R5", in, "wait gate released only after presence was added and join published", bad == nil,
+				"presence add / join publish is still ahead"+instrAt(w, bad)+": an unsubscribe parked on the gate wakes here, removes presence that is not there yet and publishes leave; the subscribe then adds presence and publishes join for a subscription that no longer exists")
+		})
+	}
+	c.Anchor("C07.R5", "closes of subscribe wait gates", n >= 5)
 }
 
 // runAsyncRoutingWriteGenMatched (C04.R8): handlers answer asynchronously; between the request and the
